@@ -852,11 +852,26 @@ class _ExprInliner(ast.NodeTransformer):
     def __init__(self, helpers, cls):
         self.helpers, self.cls, self.n = helpers, cls, 0
 
+    def visit_Name(self, node: ast.Name):
+        # an expression-bodied helper passed as a value (`key=_sort_key`) is the lambda of its body
+        if isinstance(node.ctx, ast.Load) and node.id in self.helpers and not self.helpers[node.id][1]:
+            hdef = self.helpers[node.id][0]
+            body = [s for s in hdef.body if not _docstring(s)]
+            a = hdef.args
+            if len(body) == 1 and isinstance(body[0], ast.Return) and body[0].value is not None and not (a.vararg or a.kwarg or a.kwonlyargs or a.posonlyargs or a.defaults):
+                self.n += 1
+                lam = ast.Lambda(ast.arguments(posonlyargs=[], args=[ast.arg(x.arg, None) for x in a.args], vararg=None, kwonlyargs=[], kw_defaults=[], kwarg=None, defaults=[]), copy.deepcopy(body[0].value))
+                return ast.copy_location(lam, node)
+        return node
+
     def visit_Call(self, node: ast.Call):
-        self.generic_visit(node)
         name = _helper_call(node, self.helpers, self.cls)
         if name is None:
+            self.generic_visit(node)
             return node
+        node.args = [self.visit(x) for x in node.args]
+        for k in node.keywords:
+            k.value = self.visit(k.value)
         hdef, is_method = self.helpers[name]
         body = [s for s in hdef.body if not _docstring(s)]
         if len(body) != 1 or not isinstance(body[0], ast.Return) or body[0].value is None:
